@@ -653,6 +653,590 @@ Section Perfect.
   Qed.
 End Perfect.
 
+(* ------------------------------------------------------------------ mixture *)
+(* A weighted list l : list (X * K) denotes the (sub)distribution sum_i p_i delta_{x_i};
+   [wsum l F] is the expectation of F.  Dictionaries built by accumulation denote the
+   same distribution as the list they were built from. *)
+Section Mixture.
+  Context {K : Type} {o : ops K} {SR : StarRing o}.
+  Let R := sr_ring (o:=o).
+  Add Ring Kr5 : R.
+  Local Notation "0" := (k0 o).
+  Local Notation "1" := (k1 o).
+  Local Notation "a + b" := (kadd o a b).
+  Local Notation "a * b" := (kmul o a b).
+  Local Notation "a - b" := (ksub o a b).
+
+  Definition wsum {X} (l : list (X * K)) (F : X -> K) : K := suml o l (fun e => snd e * F (fst e)).
+
+  Lemma wsum_ext {X} (l : list (X * K)) F G :
+    (forall e, In e l -> F (fst e) = G (fst e)) -> wsum l F = wsum l G.
+  Proof. intros H. apply suml_ext. intros e He. rewrite (H e He). reflexivity. Qed.
+
+  Lemma wsum_app {X} (l1 l2 : list (X * K)) F : wsum (l1 ++ l2) F = wsum l1 F + wsum l2 F.
+  Proof. apply suml_app. Qed.
+
+  Lemma trivial_ring : 1 = 0 -> forall x y : K, x = y.
+  Proof. intros H x y. transitivity (x * 1); [ring|]. rewrite H. transitivity (y * 0); [ring|]. rewrite <- H. ring. Qed.
+
+  Section DictSem.
+    Context {A : Type} (eqb : A -> A -> bool).
+    Hypothesis eqb_eq : forall a b, eqb a b = true <-> a = b.
+
+    Lemma eqb_refl' a : eqb a a = true.
+    Proof. apply eqb_eq. reflexivity. Qed.
+
+    (* total weight of key x in a weighted list *)
+    Definition dsum (d : list (A * K)) (x : A) : K := suml o d (fun e => if eqb (fst e) x then snd e else 0).
+
+    Lemma wsum_dadd (d : list (A * K)) k v F : wsum (dadd eqb o d k v) F = wsum d F + v * F k.
+    Proof.
+      unfold wsum. induction d as [|[k' v'] d IH]; simpl; [ring|].
+      destruct (eqb k' k) eqn:E; simpl.
+      - apply eqb_eq in E. subst k'. ring.
+      - rewrite IH. ring.
+    Qed.
+
+    Lemma wsum_fold_dadd {B} (l : list B) (f : B -> A) (g : B -> K) acc F :
+      wsum (fold_left (fun d e => dadd eqb o d (f e) (g e)) l acc) F
+      = wsum acc F + suml o l (fun e => g e * F (f e)).
+    Proof.
+      revert acc; induction l as [|e l IH]; intros acc; simpl; [ring|].
+      rewrite IH, wsum_dadd. ring.
+    Qed.
+
+    Lemma wsum_acc (l : list (A * K)) F :
+      wsum (fold_left (fun d e => dadd eqb o d (fst e) (snd e)) l []) F = wsum l F.
+    Proof. rewrite wsum_fold_dadd. unfold wsum. simpl. ring. Qed.
+
+    Lemma dget_dadd (d : list (A * K)) k v x :
+      dget eqb o (dadd eqb o d k v) x = dget eqb o d x + (if eqb k x then v else 0).
+    Proof.
+      induction d as [|[k' v'] d IH]; simpl; [destruct (eqb k x); ring|].
+      destruct (eqb k' k) eqn:E; simpl.
+      - apply eqb_eq in E. subst k'. destruct (eqb k x); ring.
+      - destruct (eqb k' x) eqn:E2.
+        + destruct (eqb k x) eqn:E3; [|ring]. apply eqb_eq in E2, E3. subst. rewrite eqb_refl' in E. discriminate.
+        + apply IH.
+    Qed.
+
+    Lemma dget_fold_dadd {B} (l : list B) (f : B -> A) (g : B -> K) acc x :
+      dget eqb o (fold_left (fun d e => dadd eqb o d (f e) (g e)) l acc) x
+      = dget eqb o acc x + suml o l (fun e => if eqb (f e) x then g e else 0).
+    Proof.
+      revert acc; induction l as [|e l IH]; intros acc; simpl; [ring|].
+      rewrite IH, dget_dadd. ring.
+    Qed.
+
+    Lemma dsum_nodup (d : list (A * K)) x : NoDup (dkeys d) -> dsum d x = dget eqb o d x.
+    Proof.
+      unfold dsum. induction d as [|[k v] d IH]; simpl; intros H; [reflexivity|].
+      inversion H as [|? ? Hn H']; subst. rewrite (IH H').
+      destruct (eqb k x) eqn:E; [|ring]. apply eqb_eq in E. subst k.
+      assert (Z0 : dget eqb o d x = 0).
+      { clear - Hn eqb_eq. induction d as [|[k v] d IH]; simpl in *; [reflexivity|].
+        destruct (eqb k x) eqn:E; [apply eqb_eq in E; subst; exfalso; apply Hn; left; reflexivity|].
+        apply IH. intros Hin. apply Hn. right. exact Hin. }
+      rewrite Z0. ring.
+    Qed.
+
+    (* the point mass decomposition: dsum is the expectation of an indicator *)
+    Lemma dsum_wsum (d : list (A * K)) x : dsum d x = wsum d (fun k => if eqb k x then 1 else 0).
+    Proof. unfold dsum, wsum. apply suml_ext. intros e _. destruct (eqb (fst e) x); ring. Qed.
+  End DictSem.
+
+  Lemma wsum_map {X Y} (h : X -> Y) (w : X -> K) (l : list X) F :
+    wsum (map (fun x => (h x, w x)) l) F = suml o l (fun x => w x * F (h x)).
+  Proof. unfold wsum. rewrite suml_map. reflexivity. Qed.
+
+  Lemma wsum_flat_map {X Y} (h : X -> list (Y * K)) (l : list X) F :
+    wsum (flat_map h l) F = suml o l (fun x => wsum (h x) F).
+  Proof. unfold wsum. apply suml_flat_map. Qed.
+
+  Lemma wsum_scale {X} (l : list (X * K)) c F : wsum l (fun x => c * F x) = c * wsum l F.
+  Proof.
+    unfold wsum. rewrite <- suml_mul_l. apply suml_ext. intros e _. ring.
+  Qed.
+
+  Lemma wsum_filter_zero {X} (keep : X * K -> bool) (l : list (X * K)) F :
+    (forall e, In e l -> keep e = false -> snd e = 0) -> wsum (filter keep l) F = wsum l F.
+  Proof.
+    intros H. unfold wsum. apply suml_filter_zero. intros e He Hk. rewrite (H e He Hk). ring.
+  Qed.
+End Mixture.
+Arguments wsum {K} o {X} l F.
+Arguments dsum {K} o {A} eqb d x.
+
+(* ---- output side: convolution of independent groups, mixture over inputs ---- *)
+Section OutputP.
+  Context {K : Type} {o : ops K} {SR : StarRing o}.
+  Let R := sr_ring (o:=o).
+  Add Ring Kr6 : R.
+  Local Notation "0" := (k0 o).
+  Local Notation "1" := (k1 o).
+  Local Notation "a + b" := (kadd o a b).
+  Local Notation "a * b" := (kmul o a b).
+
+  Variable D : state -> list (state * K).
+  Variable n_modes : nat.
+
+  Definition conv_list (p q : list (state * K)) : list (state * K) :=
+    flat_map (fun e1 => map (fun e2 => (zip_add (fst e1) (fst e2), snd e1 * snd e2)) q) p.
+
+  Lemma conv_eq p q :
+    conv o p q = fold_left (fun acc e => dadd st_eqb o acc (fst e) (snd e)) (conv_list p q) [].
+  Proof.
+    unfold conv, conv_list. rewrite fold_left_flat_map. apply fold_left_ext_in.
+    intros a e1 _. rewrite fold_left_map'. reflexivity.
+  Qed.
+
+  (* expectation under the convolution = iterated expectation of F(s1 + s2) *)
+  Lemma conv_spec p q F :
+    wsum o (conv o p q) F = wsum o p (fun s1 => wsum o q (fun s2 => F (zip_add s1 s2))).
+  Proof.
+    rewrite conv_eq, (wsum_acc st_eqb st_eqb_eq). unfold conv_list. rewrite wsum_flat_map.
+    transitivity (suml o p (fun e1 => snd e1 * wsum o q (fun s2 => F (zip_add (fst e1) s2)))); [|reflexivity].
+    apply suml_ext. intros e1 _. rewrite wsum_map. unfold wsum. rewrite <- suml_mul_l.
+    apply suml_ext. intros e2 _. unfold state. ring.
+  Qed.
+
+  Lemma dadd_nonempty {A} (eqb : A -> A -> bool) (d : list (A * K)) k v : dadd eqb o d k v <> [].
+  Proof. destruct d as [|[k' v'] d]; simpl; [discriminate|]. destruct (eqb k' k); discriminate. Qed.
+
+  Lemma fold_dadd_nonempty {A B} (eqb : A -> A -> bool) (l : list B) f g acc :
+    (l <> [] \/ acc <> []) -> fold_left (fun d e => dadd eqb o d (f e) (g e)) l acc <> [].
+  Proof.
+    revert acc; induction l as [|e l IH]; intros acc H; simpl.
+    - destruct H; congruence.
+    - apply IH. right. apply dadd_nonempty.
+  Qed.
+
+  Lemma conv_nonempty p q : p <> [] -> q <> [] -> conv o p q <> [].
+  Proof.
+    intros Hp Hq. rewrite conv_eq. apply fold_dadd_nonempty. left.
+    destruct p as [|e1 p]; [congruence|]. destruct q as [|e2 q]; [congruence|]. discriminate.
+  Qed.
+
+  (* iterated expectation over the groups: every group is sampled independently
+     from its own boson-sampling distribution and the occupations are added *)
+  Fixpoint gexp (gs : list state) (acc : state) (F : state -> K) : K :=
+    match gs with
+    | [] => F acc
+    | g :: gs' => wsum o (D g) (fun s => gexp gs' (zip_add acc s) F)
+    end.
+  Definition groups_expect (gs : list state) (F : state -> K) : K :=
+    match gs with
+    | [] => 0
+    | g :: gs' => wsum o (D g) (fun s => gexp gs' s F)
+    end.
+
+  Lemma combine_fold_spec gs pd F :
+    pd <> [] -> (forall g, In g gs -> D g <> []) ->
+    wsum o (fold_left (fun pd g => match pd with [] => D g | _ => conv o pd (D g) end) gs pd) F
+    = wsum o pd (fun s => gexp gs s F).
+  Proof.
+    revert pd; induction gs as [|g gs IH]; intros pd Hpd HD; simpl; [reflexivity|].
+    destruct pd as [|e pd]; [congruence|].
+    rewrite IH.
+    - rewrite conv_spec. reflexivity.
+    - apply conv_nonempty; [discriminate|]. apply HD. left. reflexivity.
+    - intros g' Hg'. apply HD. right. exact Hg'.
+  Qed.
+
+  Lemma combine_groups_spec gs F :
+    (forall g, In g gs -> D g <> []) ->
+    wsum o (combine_groups o D gs) F = groups_expect gs F.
+  Proof.
+    intros HD. unfold combine_groups. destruct gs as [|g gs]; simpl; [unfold wsum; reflexivity|].
+    apply combine_fold_spec; [apply HD; left; reflexivity|]. intros g' Hg'. apply HD. right. exact Hg'.
+  Qed.
+
+  (* annotated_state_pdist_calc is the mixture, over the inputs, of the per-input outputs *)
+  Lemma annotated_pdist_flat inputs :
+    annotated_pdist o D n_modes inputs =
+    fold_left (fun acc e => dadd st_eqb o acc (fst e) (snd e))
+              (flat_map (fun e => map (fun oe => (fst oe, snd e * snd oe))
+                                      (combine_groups o D (decompose n_modes (fst e)))) inputs) [].
+  Proof.
+    unfold annotated_pdist. rewrite fold_left_flat_map. apply fold_left_ext_in.
+    intros a e _. rewrite fold_left_map'. reflexivity.
+  Qed.
+
+  Lemma annotated_pdist_spec inputs F :
+    wsum o (annotated_pdist o D n_modes inputs) F
+    = wsum o inputs (fun a => wsum o (combine_groups o D (decompose n_modes a)) F).
+  Proof.
+    rewrite annotated_pdist_flat, (wsum_acc st_eqb st_eqb_eq), wsum_flat_map.
+    transitivity (suml o inputs (fun e => snd e * wsum o (combine_groups o D (decompose n_modes (fst e))) F));
+      [|reflexivity].
+    apply suml_ext. intros e _. rewrite wsum_map. unfold wsum. rewrite <- suml_mul_l.
+    apply suml_ext. intros oe _. ring.
+  Qed.
+
+  Lemma annotated_pdist_nodup inputs : NoDup (dkeys (annotated_pdist o D n_modes inputs)).
+  Proof. rewrite annotated_pdist_flat. apply (fold_dadd_keys st_eqb o st_eqb_eq). constructor. Qed.
+
+  (* the probability of an output pattern is the expectation of its indicator *)
+  Lemma annotated_pdist_prob inputs x :
+    dget st_eqb o (annotated_pdist o D n_modes inputs) x
+    = wsum o (annotated_pdist o D n_modes inputs) (fun s => if st_eqb s x then 1 else 0).
+  Proof.
+    rewrite <- (dsum_nodup st_eqb st_eqb_eq) by apply annotated_pdist_nodup. apply dsum_wsum.
+  Qed.
+End OutputP.
+
+(* ---- specification of the input side: independent per-photon outcomes ---- *)
+Section Spec.
+  Context {K : Type} (o : ops K).
+  Variables nu p_i p2 : K.
+
+  (* all outcome vectors of the n photons emitted into one mode: the labels of the
+     photons that are present (concatenated) and the product of the table entries;
+     every photon draws from its own copy of the six-entry table (fresh labels) *)
+  Fixpoint mode_outcomes (n : nat) (cnt : Z) : list (list Z * K) :=
+    match n with
+    | O => [([], k1 o)]
+    | S n' => lprod o (photon_table o nu p_i p2 cnt) (mode_outcomes n' (cnt + 2)%Z)
+    end.
+
+  (* ... and of all modes of the input state: one label list per mode *)
+  Fixpoint state_outcomes (st : state) (cnt : Z) : list (list (list Z) * K) :=
+    match st with
+    | [] => [([], k1 o)]
+    | n :: st' =>
+        flat_map (fun m => map (fun r => (fst m :: fst r, kmul o (snd m) (snd r)))
+                               (state_outcomes st' (cnt + 2 * Z.of_nat (Z.to_nat n))%Z))
+                 (mode_outcomes (Z.to_nat n) cnt)
+    end.
+End Spec.
+
+Section SourceMix.
+  Context {K : Type} {o : ops K} {SR : StarRing o}.
+  Let R := sr_ring (o:=o).
+  Add Ring Kr7 : R.
+  Local Notation "0" := (k0 o).
+  Local Notation "1" := (k1 o).
+  Local Notation "a + b" := (kadd o a b).
+  Local Notation "a * b" := (kmul o a b).
+
+  Variables nu p_i p2 : K.
+  Hypothesis Hfilter : filter_sound (o:=o) nu p_i p2.
+
+  Lemma wsum_single {X} (x : X) F : wsum o [(x, 1)] F = F x.
+  Proof. unfold wsum. simpl. ring. Qed.
+
+  Lemma wsum_lprod A B F :
+    wsum o (lprod o A B) F = wsum o A (fun a => wsum o B (fun b => F (a ++ b))).
+  Proof.
+    unfold lprod. rewrite wsum_flat_map.
+    transitivity (suml o A (fun e1 => snd e1 * wsum o B (fun b => F (fst e1 ++ b)))); [|reflexivity].
+    apply suml_ext. intros e1 _. rewrite wsum_map. unfold wsum. rewrite <- suml_mul_l.
+    apply suml_ext. intros e2 _. ring.
+  Qed.
+
+  Lemma single_photon_wsum cnt F :
+    wsum o (single_photon o nu p_i p2 cnt) F = wsum o (photon_table o nu p_i p2 cnt) F.
+  Proof.
+    unfold single_photon. apply wsum_filter_zero. intros [l c] Hin Hc. simpl in *.
+    apply Hfilter; [|exact Hc]. unfold photon_table in Hin. simpl in Hin.
+    repeat (destruct Hin as [Hin|Hin]; [injection Hin as _ <-; simpl; tauto|]). destruct Hin.
+  Qed.
+
+  Lemma ltot_wsum l : ltot (o:=o) l = wsum o l (fun _ => 1).
+  Proof. unfold ltot, wsum. apply suml_ext. intros; ring. Qed.
+
+  Lemma empty_total_trivial {X} (l : list (X * K)) (tot : K) : l = [] -> tot = 1 -> tot = 0 -> forall x y : K, x = y.
+  Proof. intros _ H1 H0. apply trivial_ring. congruence. Qed.
+
+  Lemma mode_list_spec n cnt acc F :
+    ltot (o:=o) acc = 1 ->
+    wsum o (mode_list o nu p_i p2 n cnt acc) F
+    = wsum o acc (fun a => wsum o (mode_outcomes o nu p_i p2 n cnt) (fun b => F (a ++ b))).
+  Proof.
+    revert cnt acc; induction n as [|n IH]; intros cnt acc Hacc.
+    - cbn [mode_list mode_outcomes]. apply wsum_ext. intros e _. rewrite wsum_single, app_nil_r. reflexivity.
+    - cbn [mode_list mode_outcomes]. destruct acc as [|e acc].
+      + apply trivial_ring. rewrite <- Hacc. reflexivity.
+      + rewrite IH.
+        * rewrite wsum_lprod. apply wsum_ext. intros a _. rewrite single_photon_wsum, wsum_lprod.
+          apply wsum_ext. intros c _. apply wsum_ext. intros b _. rewrite app_assoc. reflexivity.
+        * rewrite (lprod_total (o:=o)), Hacc, (single_photon_total nu p_i p2 Hfilter). ring.
+  Qed.
+
+  Lemma mode_list_first n cnt F :
+    wsum o (mode_list o nu p_i p2 (S n) cnt []) F = wsum o (mode_outcomes o nu p_i p2 (S n) cnt) F.
+  Proof.
+    cbn [mode_list mode_outcomes]. rewrite mode_list_spec by (apply (single_photon_total nu p_i p2 Hfilter)).
+    rewrite single_photon_wsum, wsum_lprod. reflexivity.
+  Qed.
+
+  Lemma single_mode_cnt n cnt :
+    snd (single_mode o nu p_i p2 n cnt) = (cnt + 2 * Z.of_nat (Z.to_nat n))%Z.
+  Proof. unfold single_mode. destruct (Z.eqb_spec n 0) as [->|]; simpl; [lia|reflexivity]. Qed.
+
+  Lemma single_mode_spec n cnt F :
+    (0 <= n)%Z ->
+    wsum o (fst (single_mode o nu p_i p2 n cnt)) F
+    = wsum o (mode_outcomes o nu p_i p2 (Z.to_nat n) cnt) (fun l => F (an_make [l])).
+  Proof.
+    intros Hn. unfold single_mode. destruct (Z.eqb_spec n 0) as [->|Hne]; cbn [fst].
+    - change (Z.to_nat 0) with 0%nat. cbn [mode_outcomes]. rewrite !wsum_single. reflexivity.
+    - rewrite (wsum_fold_dadd an_eqb an_eqb_eq). unfold wsum at 1. cbn [suml fold_right].
+      destruct (Z.to_nat n) as [|k] eqn:E; [lia|].
+      match goal with |- 0 + ?x = _ => transitivity x; [ring|] end.
+      transitivity (wsum o (mode_list o nu p_i p2 (S k) cnt []) (fun l => F (an_make [l]))).
+      + unfold wsum. apply suml_ext. intros e _. unfold an_make. simpl. rewrite sort_asc_idem. reflexivity.
+      + apply mode_list_first.
+  Qed.
+
+  Lemma wsum_plist dist calc (F : astate -> K) :
+    wsum o (plist (o:=o) dist calc) F = wsum o dist (fun a => wsum o calc (fun c => F (a ++ c))).
+  Proof.
+    unfold plist. rewrite wsum_flat_map.
+    transitivity (suml o dist (fun e1 => snd e1 * wsum o calc (fun c => F (fst e1 ++ c)))); [|reflexivity].
+    apply suml_ext. intros e1 _. rewrite wsum_map. unfold wsum. rewrite <- suml_mul_l.
+    apply suml_ext. intros e2 _. unfold astate. ring.
+  Qed.
+
+  Lemma wsum_state_outcomes_cons n st cnt (G : list (list Z) -> K) :
+    wsum o (state_outcomes o nu p_i p2 (n :: st) cnt) G
+    = wsum o (mode_outcomes o nu p_i p2 (Z.to_nat n) cnt)
+           (fun l => wsum o (state_outcomes o nu p_i p2 st (cnt + 2 * Z.of_nat (Z.to_nat n))%Z) (fun r => G (l :: r))).
+  Proof.
+    cbn [state_outcomes]. rewrite wsum_flat_map.
+    match goal with |- _ = wsum o ?A ?H => transitivity (suml o A (fun e1 => snd e1 * H (fst e1))); [|reflexivity] end.
+    apply suml_ext. intros e1 _. rewrite wsum_map. unfold wsum. rewrite <- suml_mul_l.
+    apply suml_ext. intros e2 _. ring.
+  Qed.
+
+  (* the fold of _full_distribution when no run of empty modes is grouped *)
+  Lemma full_fold_spec l : forall dist cnt F,
+    Forall (fun im : nat * Z => (0 <= snd im)%Z) l -> inv (o:=o) (dist, cnt) ->
+    wsum o (fst (fold_left (full_step o nu p_i p2 [] []) l (dist, cnt))) F
+    = wsum o dist (fun a => wsum o (state_outcomes o nu p_i p2 (map snd l) cnt) (fun raw => F (a ++ an_make raw))).
+  Proof.
+    induction l as [|[i n] l IH]; intros dist cnt F Hl Hinv.
+    - cbn [fold_left fst map state_outcomes]. apply wsum_ext. intros e _. rewrite wsum_single. unfold an_make. simpl. rewrite app_nil_r. reflexivity.
+    - inversion Hl as [|? ? Hn Hl']; subst. simpl in Hn.
+      destruct Hinv as [W T]. simpl in W, T.
+      destruct dist as [|e dist]; [apply trivial_ring; rewrite <- T; reflexivity|].
+      cbn [fold_left map snd]. unfold full_step at 2. cbn [existsb lookup_nat].
+      pose proof (single_mode_total nu p_i p2 Hfilter n cnt Hn) as T'.
+      pose proof (single_mode_wf (o:=o) nu p_i p2 n cnt) as W'.
+      pose proof (single_mode_spec n cnt) as S'. pose proof (single_mode_cnt n cnt) as C'.
+      destruct (single_mode o nu p_i p2 n cnt) as [calc cnt']. simpl in T', W', S', C'. subst cnt'.
+      rewrite (dist_product_spec (o:=o) _ _ W W').
+      rewrite IH; [|exact Hl'|].
+      + rewrite wsum_plist. apply wsum_ext. intros a _. rewrite S' by exact Hn.
+        rewrite wsum_state_outcomes_cons. apply wsum_ext. intros m _. apply wsum_ext. intros r _.
+        rewrite <- app_assoc. reflexivity.
+      + split; cbn [fst]; [apply plist_wf; assumption|]. rewrite plist_total, T, T'. ring.
+  Qed.
+
+  Lemma map_snd_combine_seq (st : state) k : map snd (combine (seq k (length st)) st) = st.
+  Proof. revert k; induction st as [|x st IH]; intros k; simpl; [reflexivity|]. rewrite IH. reflexivity. Qed.
+
+  Lemma Forall_combine_seq (st : state) k :
+    Forall (fun n => (0 <= n)%Z) st -> Forall (fun im : nat * Z => (0 <= snd im)%Z) (combine (seq k (length st)) st).
+  Proof.
+    revert k; induction st as [|x st IH]; intros k H; simpl; [constructor|].
+    inversion H; subst. constructor; [assumption|]. apply IH. assumption.
+  Qed.
+
+  (* independent per-photon outcomes: the (unmerged, unrelabelled) input dictionary denotes
+     the product distribution of the per-photon tables *)
+  Lemma full_distribution_spec_partial st F :
+    group_empty st = ([], []) -> st <> [] -> Forall (fun n => (0 <= n)%Z) st ->
+    wsum o (full_distribution o nu p_i p2 st) F
+    = wsum o (state_outcomes o nu p_i p2 st 1%Z) (fun raw => F (an_make raw)).
+  Proof.
+    intros Hg Hne Hpos. unfold full_distribution. rewrite Hg.
+    destruct st as [|n0 st]; [congruence|]. inversion Hpos as [|? ? Hn0 Hpos']; subst.
+    cbn [length seq combine fold_left]. unfold full_step at 2. cbn [existsb lookup_nat].
+    pose proof (single_mode_total nu p_i p2 Hfilter n0 1%Z Hn0) as T'.
+    pose proof (single_mode_wf (o:=o) nu p_i p2 n0 1%Z) as W'.
+    pose proof (single_mode_spec n0 1%Z) as S'. pose proof (single_mode_cnt n0 1%Z) as C'.
+    destruct (single_mode o nu p_i p2 n0 1%Z) as [calc cnt']. simpl in T', W', S', C'. subst cnt'.
+    rewrite full_fold_spec; [|apply Forall_combine_seq; exact Hpos'|split; assumption].
+    rewrite map_snd_combine_seq, S' by exact Hn0. rewrite wsum_state_outcomes_cons.
+    apply wsum_ext. intros m _. apply wsum_ext. intros r _. reflexivity.
+  Qed.
+
+  Lemma remap_spec d (F : astate -> K) : wsum o (remap o d) F = wsum o d (fun a => F (relabel a)).
+  Proof.
+    unfold remap. rewrite (wsum_fold_dadd an_eqb an_eqb_eq). unfold wsum. simpl. ring.
+  Qed.
+End SourceMix.
+
+(* ---- the whole annotated pipeline as a mixture ---- *)
+Section MixtureSpec.
+  Context {K : Type} {o : ops K} {SR : StarRing o}.
+  Variables nu p_i p2 : K.
+  Hypothesis Hfilter : filter_sound (o:=o) nu p_i p2.
+  Variable D : state -> list (state * K).
+  Variable n_modes : nat.
+  Hypothesis HD : forall g, D g <> [].         (* the backend never returns an empty dictionary *)
+
+  (* expected value of F on the output when the photons carry the labels [raw]:
+     equal labels form one group (they interfere: one boson-sampling distribution),
+     different labels are sampled independently and their occupations add up *)
+  Definition outcome_output (raw : list (list Z)) (F : state -> K) : K :=
+    groups_expect (o:=o) D (decompose n_modes (an_make raw)) F.
+
+  Lemma mixture_spec_partial st F :
+    group_empty st = ([], []) -> st <> [] -> Forall (fun n => (0 <= n)%Z) st ->
+    (forall raw, In raw (map fst (state_outcomes o nu p_i p2 st 1%Z)) ->
+                 decompose n_modes (relabel (an_make raw)) = decompose n_modes (an_make raw)) ->
+    wsum o (annotated_pdist o D n_modes (build_full o nu p_i p2 st)) F
+    = wsum o (state_outcomes o nu p_i p2 st 1%Z) (fun raw => outcome_output raw F).
+  Proof.
+    intros Hg Hne Hpos Hrel. rewrite annotated_pdist_spec. unfold build_full.
+    rewrite remap_spec, (full_distribution_spec_partial nu p_i p2 Hfilter) by assumption.
+    apply wsum_ext. intros e He. rewrite combine_groups_spec by (intros; apply HD).
+    unfold outcome_output. rewrite Hrel; [reflexivity|]. apply in_map. exact He.
+  Qed.
+End MixtureSpec.
+
+(* ---- Hong-Ou-Mandel: two photons on a beam splitter ---- *)
+Section HOM.
+  Context {K : Type} {o : ops K} {SR : StarRing o}.
+  Let R := sr_ring (o:=o).
+  Add Ring Kr8 : R.
+  Local Notation "0" := (k0 o).
+  Local Notation "1" := (k1 o).
+  Local Notation "a + b" := (kadd o a b).
+  Local Notation "a * b" := (kmul o a b).
+  Local Notation "a - b" := (ksub o a b).
+
+  (* beam splitter [[c, i s], [i s, c]] with real c, s; r = c^2, t = s^2 *)
+  Variables c s : K.
+  Definition bs_r : K := c * c.
+  Definition bs_t : K := s * s.
+
+  (* permanent of the 2x2 matrix = amplitude <1,1|U|1,1> = c c + (i s)(i s), a real number *)
+  Lemma bs_coincidence_amplitude :
+    kadd (cplx o) (kmul (cplx o) (c, 0) (c, 0)) (kmul (cplx o) (0, s) (0, s)) = (bs_r - bs_t, 0).
+  Proof. unfold bs_r, bs_t. simpl. unfold cadd, cmul. simpl. f_equal; ring. Qed.
+
+  (* the boson-sampling distributions of the groups that can occur (oracle instance):
+     |<2,0|U|1,1>|^2 = |sqrt2 c (i s)|^2 = 2 r t,  |<1,1|U|1,1>|^2 = (r - t)^2 *)
+  Definition D_bs (g : state) : list (state * K) :=
+    if st_eqb g [1; 1]%Z then [([2; 0]%Z, ktwo o * bs_r * bs_t); ([1; 1]%Z, (bs_r - bs_t) * (bs_r - bs_t));
+                                ([0; 2]%Z, ktwo o * bs_r * bs_t)]
+    else if st_eqb g [1; 0]%Z then [([1; 0]%Z, bs_r); ([0; 1]%Z, bs_t)]
+    else if st_eqb g [0; 1]%Z then [([1; 0]%Z, bs_t); ([0; 1]%Z, bs_r)]
+    else [(g, 1)].
+
+  Lemma D_bs_nonempty g : D_bs g <> [].
+  Proof. unfold D_bs. repeat match goal with |- context [if ?b then _ else _] => destruct b end; discriminate. Qed.
+
+  Variable p_i : K.
+  (* 0 <= p_i <= 1, as far as the [p > 0] filter is concerned *)
+  Hypothesis Hpi : gt0 o p_i = false -> p_i = 0.
+  Hypothesis Hpd : gt0 o (1 - p_i) = false -> 1 - p_i = 0.
+
+  Lemma hom_filter_sound : filter_sound (o:=o) 1 p_i 0.
+  Proof.
+    intros x Hin Hx. cbn [In] in Hin.
+    assert (E1 : Source.c1 o 1 p_i 0 = p_i) by (unfold Source.c1, p1; ring).
+    assert (E2 : c1d o 1 p_i 0 = 1 - p_i) by (unfold c1d, p1, p_d; ring).
+    destruct Hin as [<-|[<-|[<-|[<-|[<-|[<-|[]]]]]]].
+    - unfold c0, p1, ktwo. ring.
+    - rewrite E1 in *. auto.
+    - rewrite E2 in *. auto.
+    - unfold c1dp. ring.
+    - unfold c12d. ring.
+    - unfold c1d2d, p_d. ring.
+  Qed.
+
+  Definition coincidence (s : state) : K := if st_eqb s [1; 1]%Z then 1 else 0.
+
+  Lemma hom_annotated :
+    dget st_eqb o (annotated_pdist o D_bs 2 (build_full o 1 p_i 0 [1; 1]%Z)) [1; 1]%Z
+    = p_i * p_i * ((bs_r - bs_t) * (bs_r - bs_t)) + (1 - p_i * p_i) * (bs_r * bs_r + bs_t * bs_t).
+  Proof.
+    rewrite annotated_pdist_prob.
+    rewrite (mixture_spec_partial 1 p_i 0 hom_filter_sound D_bs 2 D_bs_nonempty).
+    - cbv - [kadd kmul ksub kopp k0 k1]. ring.
+    - reflexivity.
+    - discriminate.
+    - repeat constructor; discriminate.
+    - intros raw Hin. vm_compute in Hin.
+      repeat (destruct Hin as [<-|Hin]; [vm_compute; reflexivity|]). destruct Hin.
+  Qed.
+End HOM.
+
+(* ---- _remap_distribution only merges label-isomorphic states ---- *)
+Section RemapSound.
+  Lemma In_dedup_from seen l x : In x (dedup_from seen l) <-> In x l /\ ~ In x seen.
+  Proof.
+    revert seen; induction l as [|y l IH]; intros seen; simpl; [tauto|].
+    destruct (existsb (Z.eqb y) seen) eqn:E.
+    - apply existsb_exists in E as (z & Hz & Ez). apply Z.eqb_eq in Ez. subst z.
+      rewrite IH. split; [tauto|]. intros [[->|H] Hn]; [contradiction|tauto].
+    - assert (Hy : ~ In y seen).
+      { intros H. assert (existsb (Z.eqb y) seen = true) by (apply existsb_exists; exists y; split; [exact H|apply Z.eqb_refl]). congruence. }
+      simpl. rewrite IH. simpl. split.
+      + intros [->|[H1 H2]]; [tauto|]. split; [tauto|]. intros H. apply H2. right. exact H.
+      + intros [[->|H1] H2]; [tauto|]. destruct (Z.eq_dec y x) as [->|Hne]; [tauto|]. right. split; [exact H1|].
+        intros [H|H]; [congruence|contradiction].
+  Qed.
+
+  Lemma In_dedup l x : In x (dedup l) <-> In x l.
+  Proof. unfold dedup. rewrite In_dedup_from. simpl. tauto. Qed.
+
+  Lemma NoDup_dedup_from seen l : NoDup (dedup_from seen l).
+  Proof.
+    revert seen; induction l as [|y l IH]; intros seen; simpl; [constructor|].
+    destruct (existsb (Z.eqb y) seen); [apply IH|]. constructor; [|apply IH].
+    rewrite In_dedup_from. simpl. tauto.
+  Qed.
+
+  Lemma index_of_inj labs x y :
+    In x labs -> In y labs -> index_of labs x = index_of labs y -> x = y.
+  Proof.
+    induction labs as [|z labs IH]; cbn [index_of In]; intros Hx Hy E; [contradiction|].
+    assert (P : forall l w, (0 <= index_of l w)%Z).
+    { clear. induction l as [|a l IHl]; intros w; cbn [index_of]; [lia|]. destruct (Z.eqb a w); [lia|]. specialize (IHl w). lia. }
+    revert E. destruct (Z.eqb_spec z x) as [Ezx|Hzx], (Z.eqb_spec z y) as [Ezy|Hzy]; intros E.
+    - congruence.
+    - pose proof (P labs y). lia.
+    - pose proof (P labs x). lia.
+    - apply IH; [destruct Hx; congruence|destruct Hy; congruence|lia].
+  Qed.
+
+  (* the canonical key is an injective relabelling of the state ... *)
+  Lemma relabel_injective_copy a :
+    let f := index_of (dedup (concat a)) in
+    (forall x y, In x (concat a) -> In y (concat a) -> f x = f y -> x = y) /\
+    relabel a = an_make (map (map f) a).
+  Proof.
+    split; [|reflexivity]. intros x y Hx Hy. apply index_of_inj; apply In_dedup; assumption.
+  Qed.
+
+  (* ... hence two states are merged only if, after injective relabellings, every mode holds
+     the same multiset of labels *)
+  Lemma remap_sound a b :
+    relabel a = relabel b ->
+    exists fa fb,
+      (forall x y, In x (concat a) -> In y (concat a) -> fa x = fa y -> x = y) /\
+      (forall x y, In x (concat b) -> In y (concat b) -> fb x = fb y -> x = y) /\
+      Forall2 (@Permutation Z) (map (map fa) a) (map (map fb) b).
+  Proof.
+    intros E. exists (index_of (dedup (concat a))), (index_of (dedup (concat b))).
+    destruct (relabel_injective_copy a) as [Ia Ea], (relabel_injective_copy b) as [Ib Eb].
+    repeat split; [exact Ia|exact Ib|]. apply an_make_eq_iff. congruence.
+  Qed.
+
+  (* merging in the dictionaries happens only between identical keys *)
+  Lemma remap_keys {K} (o : ops K) d x :
+    In x (dkeys (remap o d)) <-> exists e, In e d /\ x = relabel (fst e).
+  Proof.
+    unfold remap. pose proof (fold_dadd_keys an_eqb o an_eqb_eq d (fun e => relabel (fst e)) snd []) as [_ H].
+    rewrite H. simpl. split; [intros [[]|H']; exact H'|intros H'; right; exact H'].
+  Qed.
+End RemapSound.
+
 (* ---- the emitted photon-number statistics: g2 = 1 - purity (ring form) ---- *)
 Section G2Generic.
   Context {K : Type} {o : ops K} {SR : StarRing o}.
@@ -823,3 +1407,52 @@ Section Purity.
     split; [apply sqrt_pos|]. rewrite <- sqrt_1. apply sqrt_le_1_alt. exact H1.
   Qed.
 End Purity.
+
+(* ---- HOM over the reals, through the dispatch of _build_statistics ---- *)
+Section HOM_R.
+  Local Open Scope R_scope.
+  Variable p_i : R.
+  Hypothesis Hpi : 0 <= p_i <= 1.
+  (* 50:50 beam splitter *)
+  Variables c s : R.
+  Hypothesis Hc : c * c = 1 / 2.
+  Hypothesis Hs : s * s = 1 / 2.
+
+  Lemma Rklt11 : klt Rops (k1 Rops) (k1 Rops) = false.
+  Proof. unfold klt. simpl. apply negb_false_iff. apply Rleb_true. lra. Qed.
+  Lemma Reqb_refl x : Reqb x x = true.
+  Proof. apply Reqb_true. reflexivity. Qed.
+
+  (* coincidence probability (1 - I)/2 for every indistinguishability I = p_i^2 in [0,1],
+     brightness 1, purity 1, no threshold: both the fast path (I = 1) and the annotated path *)
+  Lemma hom_coincidence_R :
+    dget st_eqb Rops
+         (pdist_calc Rops (D_bs (o:=Rops) c s) 2 false
+                     (build_statistics Rops 1 p_i 0 1 (p_i * p_i) 0 [1; 1]%Z)) [1; 1]%Z
+    = (1 - p_i * p_i) / 2.
+  Proof.
+    unfold build_statistics, stats_raw.
+    change (keqb Rops 1 (k1 Rops)) with (Reqb 1 1). rewrite Reqb_refl. cbn [andb].
+    change (keqb Rops (p_i * p_i) (k1 Rops)) with (Reqb (p_i * p_i) 1).
+    destruct (Reqb (p_i * p_i) 1) eqn:E.
+    - apply Reqb_true in E.
+      rewrite (threshold_zero (o:=Rops)) by (simpl; apply Reqb_refl).
+      change 1 with (k1 Rops) at 1.
+      rewrite (build_basic_perfect (o:=Rops) Rklt11) by (repeat constructor; discriminate).
+      unfold pdist_calc, basic_pdist. rewrite andb_false_r. unfold basic_mix. cbn [fold_left fst snd].
+      change (keqb Rops (k1 Rops) (k1 Rops)) with (Reqb 1 1). rewrite Reqb_refl.
+      unfold D_bs. cbn [st_eqb Z.eqb Pos.eqb andb dget]. unfold bs_r, bs_t. simpl. rewrite Hc, Hs, E. lra.
+    - rewrite (threshold_zero (o:=Rops)) by (simpl; apply Reqb_refl).
+      unfold pdist_calc.
+      change 1 with (k1 Rops) at 1. change 0 with (k0 Rops) at 1.
+      rewrite (hom_annotated (o:=Rops) c s p_i).
+      + unfold bs_r, bs_t. simpl. rewrite Hc, Hs. field.
+      + intros H. unfold gt0 in H. apply negb_false_iff in H. simpl in *. apply Rleb_true in H. lra.
+      + intros H. unfold gt0 in H. apply negb_false_iff in H. simpl in *. apply Rleb_true in H. lra.
+  Qed.
+
+  (* visibility V = 1 - P_coinc(I) / P_coinc(0) = I *)
+  Lemma hom_visibility_R :
+    1 - ((1 - p_i * p_i) / 2) / ((1 - 0 * 0) / 2) = p_i * p_i.
+  Proof. field. Qed.
+End HOM_R.
